@@ -208,12 +208,16 @@ where
 {
     type Stream = Self;
 
-    fn into_parts(self) -> (Vector<VectorDiffContainerStreamElement<S>>, Self::Stream) {
+    fn into_parts(mut self) -> (Vector<VectorDiffContainerStreamElement<S>>, Self::Stream) {
         // Hand out the current (limited) view, not the unlimited buffer.
         let mut values = self.buffered_vector.clone();
         if self.limit < values.len() {
             values.truncate(self.limit);
         }
+
+        // A diff that was computed but not handed out yet is already part of
+        // `values`; it must not be emitted on top of them.
+        self.ready_values = Default::default();
 
         (values, self)
     }
